@@ -23,7 +23,12 @@ impl<'a> KeyHolderType<'a> {
             if value.get_kind() == TypeKind::STRUCTURE {
                 for member in value.member_list {
                     if member.descriptor.is_key {
-                        member_list.push(member.clone());
+                        // the key holder is ONE flat structure: member ids are only unique
+                        // inside the structure they come from, so number them afresh
+                        let mut key_member = member.clone();
+                        key_member.descriptor.id = member_list.len() as u32;
+                        key_member.descriptor.index = member_list.len() as u32;
+                        member_list.push(key_member);
                     } else if member.descriptor.r#type.descriptor.kind == TypeKind::STRUCTURE
                         && !member.descriptor.is_optional
                     {
@@ -76,6 +81,7 @@ impl<'a> KeyHolderData<'a> {
         fn fill_struct_key_holder_data<'a>(
             value: &DynamicData<'a>,
             key_holder_data: &mut DynamicData,
+            next_key_id: &mut u32,
         ) -> XTypesResult<()> {
             let dynamic_type = value.r#type();
             if dynamic_type.get_kind() == TypeKind::STRUCTURE {
@@ -83,8 +89,10 @@ impl<'a> KeyHolderData<'a> {
                     let dynamic_type_member = dynamic_type.get_member_by_index(member_index)?;
                     let key_member_id = dynamic_type_member.get_id();
                     if dynamic_type_member.descriptor.is_key {
+                        // same numbering as fill_struct_key_holder_type (same traversal order)
                         key_holder_data
-                            .set_value(key_member_id, value.get_value(key_member_id)?.clone());
+                            .set_value(*next_key_id, value.get_value(key_member_id)?.clone());
+                        *next_key_id += 1;
                     } else if dynamic_type_member.descriptor.r#type.get_kind()
                         == TypeKind::STRUCTURE
                         && !dynamic_type_member.descriptor.is_optional
@@ -92,6 +100,7 @@ impl<'a> KeyHolderData<'a> {
                         fill_struct_key_holder_data(
                             value.get_complex_value(key_member_id)?,
                             key_holder_data,
+                            next_key_id,
                         )?;
                     }
                 }
@@ -100,7 +109,7 @@ impl<'a> KeyHolderData<'a> {
         }
         let key_holder_type = KeyHolderType::from_dynamic_type(&value.r#type(), member_list)?.0;
         let mut key_holder_data = DynamicDataFactory::create_data(key_holder_type);
-        fill_struct_key_holder_data(value, &mut key_holder_data)?;
+        fill_struct_key_holder_data(value, &mut key_holder_data, &mut 0)?;
         Ok(Self(key_holder_data))
     }
 
